@@ -40,7 +40,18 @@ func runCase(c *rig.Ctx, cs Case) verdict {
 	return runCI(c, cs)
 }
 
+var recorded = map[string]int{}
+
+// distinctFailures: failures of one class are recorded once (the check's verdict needs one replay per class; a known
+// finding must not use up the failure budget and hide other classes).
+func distinctFailures() int { return len(recorded) }
+
 func record(c *rig.Ctx, cs Case, v verdict) {
+	recorded[v.class]++
+	if recorded[v.class] > 1 {
+		c.Count("failure-again:" + v.class)
+		return
+	}
 	c.Fail(rig.Failure{Kind: v.kind, Class: v.class, What: v.what, Case: cs, Impl: v.impl, Model: v.model})
 }
 
@@ -187,7 +198,7 @@ func main() {
 		// ClusterInfo level
 		n := c.Budget(260, 6000)
 		maxLen := 12
-		for i := 0; i < n && c.NFailures() < 4; i++ {
+		for i := 0; i < n && distinctFailures() < 4; i++ {
 			raw := i%5 == 4
 			hist, labels := genHistory(c.Rng, "c.example", maxLen, raw)
 			cs := Case{Mode: "ci", Global: rig.Pick(c.Rng, []string{"", "local", "remote", "remote"}), History: hist, Probes: genProbes(c.Rng)}
@@ -201,13 +212,17 @@ func main() {
 			histBuckets(c, labels)
 			c.Trace()
 			if v := runCase(c, cs); !v.ok {
-				scs, sv := shrink(c, cs, v)
-				record(c, scs, sv)
+				if recorded[v.class] > 0 {
+					record(c, cs, v)
+				} else {
+					scs, sv := shrink(c, cs, v)
+					record(c, scs, sv)
+				}
 			}
 		}
 		// controller level
 		m := c.Budget(120, 2500)
-		for i := 0; i < m && c.NFailures() < 4; i++ {
+		for i := 0; i < m && distinctFailures() < 4; i++ {
 			cs, labels := genCtl(c.Rng, i%5 == 4)
 			c.Case(sig(cs), true, fmt.Sprintf("ctl ops=%02d", len(cs.Ops)/4*4), func() interface{} {
 				return map[string]interface{}{"mode": "ctl", "ops": len(cs.Ops), "varied": labels}
@@ -215,8 +230,12 @@ func main() {
 			histBuckets(c, labels)
 			c.Trace()
 			if v := runCase(c, cs); !v.ok {
-				scs, sv := shrink(c, cs, v)
-				record(c, scs, sv)
+				if recorded[v.class] > 0 {
+					record(c, cs, v)
+				} else {
+					scs, sv := shrink(c, cs, v)
+					record(c, scs, sv)
+				}
 			}
 		}
 		gateTie(c)
